@@ -399,8 +399,120 @@ def families(thorough):
     return fam
 
 
+# ---- programmatic constants: constructor x value menu, and raw Python values (sequences) --------------------
+MD5 = "d41d8cd98f00b204e9800998ecf8427e"
+
+
+def constant_menu():
+    """(class name, constructor args, expected typed constant or None when the value is not one the class can denote)"""
+    nan, inf = float("nan"), float("inf")
+    return [
+        ("HexConstant", ("ab",), ("hex", "ab")), ("HexConstant", ("AB01",), ("hex", "AB01")), ("HexConstant", ("ab\n",), None), ("HexConstant", ("abc",), None), ("HexConstant", ("zz",), None),
+        ("HexConstant", ("h'ab'",), ("hex", "ab")), ("HexConstant", ("h'ab'\n",), None), ("HexConstant", ("",), None),
+        ("BinaryConstant", ("YQ==",), ("bin", "YQ==")), ("BinaryConstant", ("YQ==\n",), None), ("BinaryConstant", ("!!",), None), ("BinaryConstant", ("YQ='",), None),
+        ("HashConstant", (MD5, "MD5"), ("str", MD5)), ("HashConstant", (MD5 + "\n", "MD5"), None), ("HashConstant", (MD5 + "zz", "MD5"), None), ("HashConstant", (MD5, "md5"), ("str", MD5)),
+        ("HashConstant", (MD5 + "zz", "MD6"), None), ("HashConstant", ("it's", "SSDEEP"), None),
+        ("IntegerConstant", (5,), ("int", 5)), ("IntegerConstant", ("5",), ("int", 5)), ("IntegerConstant", (-5,), ("int", -5)), ("IntegerConstant", ("x",), None), ("IntegerConstant", (10 ** 30,), ("int", 10 ** 30)),
+        ("IntegerConstant", (True,), None), ("IntegerConstant", (nan,), None), ("IntegerConstant", (1.5,), None),
+        ("FloatConstant", (1.5,), ("float", 1.5)), ("FloatConstant", ("1.5",), ("float", 1.5)), ("FloatConstant", (nan,), None), ("FloatConstant", (inf,), None), ("FloatConstant", (-inf,), None),
+        ("FloatConstant", ("nan",), None), ("FloatConstant", (1e22,), ("float", 1e22)), ("FloatConstant", (1e-7,), ("float", 1e-7)), ("FloatConstant", (5,), ("float", 5.0)), ("FloatConstant", ("x",), None),
+        ("BooleanConstant", (True,), ("bool", True)), ("BooleanConstant", ("true",), ("bool", True)), ("BooleanConstant", ("F",), ("bool", False)), ("BooleanConstant", ("maybe",), None),
+        ("BooleanConstant", (0,), ("bool", False)), ("BooleanConstant", (2,), None),
+        ("StringConstant", ("it's \\ \n",), ("str", "it's \\ \n")), ("StringConstant", ("",), ("str", "")),
+        ("TimestampConstant", ("2017-01-01T00:00:00Z",), ("ts", A.T1)), ("TimestampConstant", ("2017-01-01T00:00:00Z\n",), None), ("TimestampConstant", ("2017-01-01",), None),
+        ("TimestampConstant", ("yesterday",), None), ("TimestampConstant", ("2017-01-01T00:00:00.123456Z",), ("ts", A.T1 + 123456 * tsfmt.PS_PER_US)),
+    ]
+
+
+def check_constant(cname, args, want, part, case):
+    """the constructor either refuses (ValueError / TypeError) or yields a constant that prints to valid text carrying exactly the value it was given"""
+    import stix2.patterns as P
+    part.evaluations += 1
+    part.transitions += 2
+    try:
+        c = getattr(P, cname)(*args)
+    except (ValueError, TypeError):
+        part.outcome("constant:refused")
+        if want is not None:
+            part.violation("C10/constant-refused/%s" % cname, "a model constant class refuses a value of its own kind", case, repr(want), "refused")
+        return
+    except Exception as e:
+        part.outcome("constant:raises")
+        part.violation("C10/constant-raises/%s/%s" % (cname, type(e).__name__), "a model constant class fails on a value instead of refusing it", case, "ValueError", "%s: %s" % (type(e).__name__, str(e)[:100]))
+        return
+    text = str(P.ObservationExpression(P.EqualityComparisonExpression(P.ObjectPath("x", [P.BasicObjectPathComponent("p", False)]), c)))
+    try:
+        got = A.norm(A.read(text, "2.1"))
+    except Exception:
+        part.outcome("constant:printed-invalid")
+        part.violation("C10/constant-print-invalid/%s" % cname, "a constant the model class accepted prints to text the grammar does not accept", dict(case, printed=text), "refused, or valid text", text)
+        return
+    part.state(("constant", text), nontrivial=True)
+    if want is None:
+        part.outcome("constant:accepted-and-valid")
+        return
+    exp = A.norm(("leaf", ("cmp", "=", False, ("path", "x", (("key", "p"),)), want)))
+    if got != exp:
+        part.outcome("constant:value-changed")
+        part.violation("C10/constant-print/%s" % cname, "a constant prints to text denoting another value", dict(case, printed=text), A.to_text(("leaf", ("cmp", "=", False, ("path", "x", (("key", "p"),)), want))), text)
+    else:
+        part.outcome("constant:ok")
+
+
+RAW = [True, False, 1, 0, 1.0, 0.0, -1, 1.5, "a", "true", "1", "", "it's", 2 ** 53 + 1, [True, 1.0, False, 0.0, 1, 0], [1, "1"], [1.0], [True]]
+
+
+def raw_typed(v):
+    if isinstance(v, bool):
+        return ("bool", v)
+    if isinstance(v, int):
+        return ("int", v)
+    if isinstance(v, float):
+        return ("float", v)
+    if isinstance(v, str):
+        return ("str", v)
+    return ("set", tuple(raw_typed(x) for x in v))
+
+
+def check_raw_sequence(seq, part, case):
+    """raw Python values handed to the comparison classes (make_constant): the constant chosen for a value must not depend on the values converted before it"""
+    import stix2.patterns as P
+    for i, v in enumerate(seq):
+        part.transitions += 1
+        cls = P.InComparisonExpression if isinstance(v, list) else P.EqualityComparisonExpression
+        want = ("leaf", ("cmp", "IN" if isinstance(v, list) else "=", False, ("path", "x", (("key", "p"),)), raw_typed(v)))
+        try:
+            text = str(P.ObservationExpression(cls("x:p", v)))
+            got = A.norm(A.read(text, "2.1"))
+        except Exception as e:
+            part.outcome("raw:raises")
+            part.violation("C10/raw-value-raises/%s" % type(e).__name__, "a comparison built from a raw Python value fails", dict(case, step=i), A.to_text(want), "%s: %s" % (type(e).__name__, str(e)[:100]))
+            return
+        if got != A.norm(want):
+            part.outcome("raw:DIFFERS")
+            part.violation("C10/raw-value/%s%s" % (raw_typed(v)[0], "/after-earlier-values" if i else ""), "a raw Python value is turned into a constant of another type or value",
+                           dict(case, step=i, printed=text), A.to_text(want), text)
+            return
+    part.outcome("raw:ok")
+    part.evaluations += 1
+
+
 def run_case(case, part):
     env.reset()
+    if case["family"] == "constants":
+        for i, (cname, args, want) in enumerate(constant_menu()):
+            if case.get("index") is None or case["index"] == i:
+                check_constant(cname, args, want, part, {"family": "constants", "index": i, "class": cname, "args": repr(args)})
+        return
+    if case["family"] == "raw-values":
+        import itertools
+        for seq in itertools.product(range(len(RAW)), repeat=case.get("depth", 2)):
+            if case.get("first") is not None and seq[0] != case["first"]:
+                continue
+            if case.get("sequence") is not None and list(seq) != case["sequence"]:
+                continue
+            check_raw_sequence([RAW[j] for j in seq], part, {"family": "raw-values", "depth": len(seq), "sequence": list(seq), "values": repr([RAW[j] for j in seq])})
+        return
     fams = dict(families(case.get("thorough", False)))
     trees = fams[case["family"]]
     lo, hi = case.get("lo", 0), case.get("hi", len(trees))
@@ -412,6 +524,8 @@ def run_case(case, part):
 
 
 def replay(case, part):
+    if case["family"] == "raw-values":
+        return run_case({"family": "raw-values", "depth": case["depth"], "sequence": case["sequence"]}, part)
     run_case({"family": case["family"], "index": case["index"], "thorough": case.get("thorough", False)}, part)
 
 
@@ -424,10 +538,16 @@ def run(run):
         step = 100
         for lo in range(0, len(trees), step):
             cases.append({"family": name, "lo": lo, "hi": lo + step, "thorough": th})
+    cases.append({"family": "constants"})
+    for first in range(len(RAW)):
+        cases.append({"family": "raw-values", "depth": 3 if th else 2, "first": first})
+    sizes["constants"] = len(constant_menu())
+    sizes["raw-values"] = len(RAW) ** (3 if th else 2)
     run.mode = "DEV"
     run.rule = ("full product of the atom menus (operator x NOT x constant x path) + all comparison / observation trees with <= %d leaves over every operator assignment and every "
                 "parenthesisation + qualifier placements (alone, stacked, on operand vs on group) + mixed trees; each through text->model->text (twice), field-by-field model walk and "
-                "programmatic construction, under the 2.1 grammar and, where the third-party 2.0 parser accepts the text, the 2.0 grammar; states = distinct (grammar version, text)" % (4 if th else 3))
+                "programmatic construction; every model constant class x value menu (refused, or valid text with the same value); every sequence of %d raw Python values through the "
+                "comparison classes (type chosen for a value independent of earlier values); under the 2.1 grammar and, where the third-party 2.0 parser accepts the text, the 2.0 grammar; states = distinct (grammar version, text)" % (4 if th else 3, 3 if th else 2))
     run.bound = {"families": sizes, "max_leaves": 4 if th else 3}
     run.assumptions += ["independent reader mc/ref/pattern_ast.py on top of the third-party stix2-patterns ANTLR parse tree (its grammar is the definition of 'valid pattern')",
                         "structural equality ignores redundant parentheses and flattens chains of one associative operator (AND / OR / FOLLOWEDBY)"]
@@ -438,3 +558,4 @@ def run(run):
     o = run.part.outcomes
     run.require(o.get("parse-print-ok", 0) > 1000, "round trips executed")
     run.require(o.get("programmatic:ok", 0) > 500, "programmatic constructions executed")
+    run.require(o.get("raw:ok", 0) + o.get("raw:DIFFERS", 0) + o.get("raw:raises", 0) >= len(RAW) ** 2, "raw value sequences executed")
